@@ -11,8 +11,8 @@ QUICK_N = 600
 THOROUGH_N = 4000
 SHARD = 150
 TRANSLATORS = ["flowfilter_atoms"]
-COQ_PRELUDE = "From MV Require Import Model.FilterGrammar Model.FilterBody.\n"
-RULE = ("12% body-operator cases: ~b / ~bq / ~bs with a regex from a pool that includes patterns matching the empty string (^$ .* x* (foo)? and the empty regex) applied by the real filter to a real HTTP flow whose request / response body is absent (None), present-and-empty or non-empty, with or without websocket messages, or to TCP / UDP / DNS / other flows; the rest: 62% expression trees (depth <= 5, thorough <= 6; parenthesis / negation nesting bounded because the real parser is exponential in it) over every unary / regex / int operator with arguments from a "
+COQ_PRELUDE = "From MV Require Import Model.FilterGrammar Model.FilterBody Model.FilterHeader.\n"
+RULE = ("12% header-operator cases: ~t ~tq ~ts ~h ~hq ~hs ~a on real HTTP flows whose Content-Type header is absent, present once or repeated (different values, different case of the name, empty value, look-alike names), regex pool with empty-matching and anchored patterns; 10% body-operator cases: ~b / ~bq / ~bs with a regex from a pool that includes patterns matching the empty string (^$ .* x* (foo)? and the empty regex) applied by the real filter to a real HTTP flow whose request / response body is absent (None), present-and-empty or non-empty, with or without websocket messages, or to TCP / UDP / DNS / other flows; the rest: 62% expression trees (depth <= 5, thorough <= 6; parenthesis / negation nesting bounded because the real parser is exponential in it) over every unary / regex / int operator with arguments from a "
         "dictionary of regex-like words (operators, quotes, backslashes, parentheses, non-ASCII, empty), rendered by the harness "
         "renderer (mirror of the model's render; equality is part of the correspondence check) with random whitespace, redundant "
         "parentheses, explicit & vs juxtaposition, naked vs ~u, bare / raw-quoted / escape-quoted arguments, inside the guard of "
@@ -314,6 +314,35 @@ def gen_body(rng):
     return {"k": "body", "op": rng.choice(["b", "bq", "bs"]), "rex": rng.choice(BODY_REX), "flow": fl}
 
 
+HDR_CT = [["content-type", "text/html"], ["Content-Type", "application/json"], ["CONTENT-TYPE", "image/png"], ["content-type", ""],
+          ["Content-type", "text/css"], ["content-type", "font/woff"], ["content-type", "TEXT/JAVASCRIPT"], ["content-type", "text/javascript"],
+          ["content-type", "application/font-sfnt"], ["Content-Type", "text/html; charset=utf-8"], ["content-type", "app"],
+          ["content-type", "application/x-javascript"]]
+HDR_OTHER = [["x-content-type", "text/css"], ["host", "example.com"], ["accept", "text/html, app"], ["content-type-x", "image/gif"],
+             ["content-length", "0"], ["X-Empty", ""]]
+HDR_REX = ["", ".*", "^", "x*", "^$", "^application", "html$", "html, app", "text/html", "JSON", "image", "content-type", "^content-type: text",
+           "example", "^host", "type: .*html\\r?$", "css", "^text", "app$", "(foo)?", "png|css", "\\Ahost", "x-empty: \\r"]
+HDR_REX_CT = ["", ".*", "^", "x*", "^$", "(foo)?", "^application", "html$", "app$", "^text", "html, app", "^image", "css$", "json$"]
+HDR_OPS = ["t", "tq", "ts", "h", "hq", "hs", "a"]
+
+
+def gen_hdr(rng):
+    def fields():
+        fs = [rng.choice(HDR_CT) for _ in range(rng.weighted([(30, 0), (25, 1), (30, 2), (15, 3)]))]
+        fs += [rng.choice(HDR_OTHER) for _ in range(rng.randint(0, 2))]
+        return rng.shuffle(fs)
+    t = rng.weighted([(90, "http"), (10, "other")])
+    fl = {"t": t}
+    if t == "http":
+        fl["req"] = fields()
+        fl["resp"] = fields() if rng.chance(0.75) else None
+    else:
+        fl["kind"] = rng.choice(["tcp", "dns", "udp"])
+    op = rng.choice(["t", "tq", "ts", "a"] * 2 + ["h", "hq", "hs"])
+    rex = rng.choice(HDR_REX_CT) if op[0] == "t" and rng.chance(0.6) else rng.choice(HDR_REX)
+    return {"k": "hdr", "op": op, "rex": rex, "flow": fl}
+
+
 def gen(rng, n, tier):
     out = []
     maxd = 6 if tier == "thorough" else 5
@@ -321,10 +350,13 @@ def gen(rng, n, tier):
     rendered = []
     while len(out) < n:
         r = rng.random()
-        if r < 0.12:
+        if r < 0.10:
             out.append(gen_body(rng))
             continue
-        r = (r - 0.12) / 0.88
+        if r < 0.22:
+            out.append(gen_hdr(rng))
+            continue
+        r = (r - 0.22) / 0.78
         if r < 0.77:
             mode = "guard" if r < 0.62 else ("juxt" if r < 0.72 else "raw")
             for _ in range(40):
@@ -412,6 +444,14 @@ def setup_impl():
     f = tflow.tflow(resp=True)  # request body empty, response body absent
     f.request.content = b""
     f.response.content = None
+    fl.append(f)
+    f = tflow.tflow(resp=True)  # repeated Content-Type, different case and values; asset type only in the second line
+    f.request.headers = http.Headers(((b"Content-Type", b"application/json"), (b"content-type", b"text/html")))
+    f.response.headers = http.Headers(((b"content-type", b"text/html"), (b"CONTENT-TYPE", b"image/png"), (b"x-a", b"b")))
+    fl.append(f)
+    f = tflow.tflow(resp=True)  # no headers at all in the request, empty Content-Type value in the response
+    f.request.headers = http.Headers(())
+    f.response.headers = http.Headers(((b"content-type", b""),))
     fl.append(f)
     FLOWS = fl
 
@@ -532,8 +572,52 @@ class RefBody:
                    if self.code == "b" or d == (self.code == "bq"))
 
 
+ASSET_REF = [b"text/javascript", b"application/x-javascript", b"application/javascript", b"text/css", b"image/.*", b"font/.*",
+             b"application/font.*"]
+
+
+def block(fields):
+    return b"".join(n + b": " + v + b"\r\n" for n, v in fields)
+
+
+class RefHdr:
+    """documented ~t ~tq ~ts / ~a: some Content-Type field value matches (each value on its own; no field, no match);
+    ~h ~hq ~hs: multi-line search over the name: value lines of each message that is present.  HTTP flows only."""
+
+    def __init__(self, code, arg=""):
+        import warnings
+        self.code = code
+        try:
+            with warnings.catch_warnings():
+                warnings.simplefilter("ignore")
+                if code == "a":
+                    self.pats = [re.compile(x) for x in ASSET_REF]
+                else:
+                    self.pats = [re.compile(arg.encode(), re.IGNORECASE | (re.MULTILINE if code[0] == "h" else 0))]
+        except Exception:
+            raise ValueError("Cannot compile expression.")
+
+    def search(self, v):
+        return any(p.search(v) is not None for p in self.pats)
+
+    def __call__(self, fl):
+        from mitmproxy import http
+        if not isinstance(fl, http.HTTPFlow):
+            return False
+        msgs = []
+        if self.code in ("t", "tq", "h", "hq"):
+            msgs.append(fl.request)
+        if self.code in ("t", "ts", "h", "hs", "a") and fl.response is not None:
+            msgs.append(fl.response)
+        if self.code[0] == "h":
+            return any(self.search(block(m.headers.fields)) for m in msgs)
+        return any(self.search(v) for m in msgs for n, v in m.headers.fields if n.lower() == b"content-type")
+
+
 def mk_atom(a):
     kind, code, arg = a
+    if (kind == "r" and code in ("t", "tq", "ts", "h", "hq", "hs")) or (kind == "u" and code == "a"):
+        return RefHdr(code, arg)
     if kind == "r" and code in ("b", "bq", "bs"):
         return RefBody(code, arg)
     for c in ff.filter_unary + ff.filter_rex + ff.filter_int:
@@ -543,7 +627,7 @@ def mk_atom(a):
 
 
 def expected_verdicts(e):
-    """documented semantics: atoms by the real atom classes (body operators by the independent RefBody), combination by the tree"""
+    """documented semantics: atoms by the real atom classes (body / header operators by the independent RefBody / RefHdr), combination by the tree"""
     def ev(e, fl):
         if e[0] == "atom":
             return bool(ATOMS[id(e)](fl))
@@ -708,9 +792,48 @@ def run_body(case):
     return o
 
 
+def run_hdr(case):
+    from mitmproxy import http
+    from mitmproxy.test import tflow
+    op, spec = case["op"], case["flow"]
+    s = "~a" if op == "a" else "~" + op + ' "' + escape('"', case["rex"]) + '"'
+    o = {"s": enc(s).hex(), "tree": None, "err": None}
+    if spec["t"] == "http":
+        f = tflow.tflow(resp=spec["resp"] is not None)
+        f.request.headers = http.Headers(tuple((n.encode(), v.encode()) for n, v in spec["req"]))
+        if spec["resp"] is not None:
+            f.response.headers = http.Headers(tuple((n.encode(), v.encode()) for n, v in spec["resp"]))
+        fh = lambda m: [[n.hex(), v.hex()] for n, v in m.headers.fields]
+        o["shape"] = {"t": "http", "req": fh(f.request), "resp": None if f.response is None else fh(f.response)}
+    else:
+        f = {"tcp": tflow.ttcpflow, "udp": tflow.tudpflow, "dns": tflow.tdnsflow}[spec["kind"]]()
+        o["shape"] = {"t": "other"}
+    flt, err = real_parse(s)
+    o["err"] = err
+    if flt is None:
+        return o
+    o["tree"] = tree_of(flt)
+    try:
+        o["impl"] = bool(flt(f))
+    except Exception as ex:
+        o["err"] = "other:call:" + type(ex).__name__
+        return o
+    ref = RefHdr(op, case["rex"])
+    o["ref"] = ref(f)
+    keys = set()
+    if o["shape"]["t"] == "http":
+        for m in [f.request] + ([f.response] if f.response is not None else []):
+            keys.add(block(m.headers.fields))
+            keys |= {v for n, v in m.headers.fields}
+    o["tbls"] = [[[k.hex(), p.search(k) is not None] for k in sorted(keys)] for p in ref.pats]
+    return o
+
+
 def run_impl(case):
     if case["k"] == "body":
         return run_body(case)
+    if case["k"] == "hdr":
+        return run_hdr(case)
     if case["k"] == "str":
         s = case["s"]
         o = observe(s)
@@ -790,7 +913,23 @@ def c_flowb(sh):
     return "OtherB"
 
 
+def coq_hdr(case, obs):
+    if obs["err"] is not None:
+        return "Hdr 0%N OtherH (@nil (list (bytes * bool))) true"
+    sh = obs["shape"]
+    fl = lambda fs: clist((f"({cbytes(bytes.fromhex(n))}, {cbytes(bytes.fromhex(v))})" for n, v in fs), "field")
+    if sh["t"] == "http":
+        f = f"(HttpH {fl(sh['req'])} {copt(sh['resp'], fl, '(list field)')})"
+    else:
+        f = "OtherH"
+    tbls = clist((clist((f"({cbytes(bytes.fromhex(h))}, {cbool(v)})" for h, v in t), "(bytes * bool)%type") for t in obs["tbls"]),
+                 "(list (bytes * bool))")
+    return f"Hdr {cN(HDR_OPS.index(case['op']))} {f} {tbls} {cbool(obs['impl'])}"
+
+
 def coq_case(case, obs):
+    if case["k"] == "hdr":
+        return coq_hdr(case, obs)
     if case["k"] == "body":
         if obs["err"] is not None:  # the filter string must parse and the filter must not raise: forced disagreement
             return "Body 0%N OtherB (@nil (bytes * bool)) true"
@@ -837,6 +976,14 @@ def _fragment(s, j):
 
 
 def oracle(case, obs):
+    if case["k"] == "hdr":
+        s = bytes.fromhex(obs["s"]).decode()
+        if obs["err"] is not None:
+            return [{"key": "header-filter-error", "what": f"{s} on {case['flow']}: {obs['err']}"}]
+        if obs["impl"] != obs["ref"]:
+            return [{"key": "header-verdict", "what": f"parse({s!r}) on flow {case['flow']} gives {obs['impl']}; the documented "
+                                                      f"meaning (some Content-Type value / header line matches) gives {obs['ref']}"}]
+        return []
     if case["k"] == "body":
         s = bytes.fromhex(obs["s"]).decode()
         if obs["err"] is not None:
@@ -878,6 +1025,17 @@ def nontrivial(case, obs):
 
 def classify(case, obs):
     tags = [case["k"], "accepted" if obs["tree"] is not None else "rejected"]
+    if case["k"] == "hdr":
+        tags += ["hdr-~" + case["op"], "hdr-true" if obs.get("impl") else "hdr-false"]
+        fl = case["flow"]
+        if fl["t"] == "http":
+            for side in ("req", "resp"):
+                if fl[side] is not None:
+                    n = sum(1 for k, _ in fl[side] if k.lower() == "content-type")
+                    tags.append(f"hdr-{side}-ct-" + ("absent" if n == 0 else "once" if n == 1 else "repeated"))
+        else:
+            tags.append("hdr-not-http")
+        return tags
     if case["k"] == "body":
         sh = obs["shape"]
         tags += ["body-~" + case["op"], "body-" + sh["t"], "body-true" if obs.get("impl") else "body-false"]
